@@ -1137,6 +1137,10 @@ def search_without_lean(ctx: Ctx, runner: Runner) -> None:
     for k in range(1, 5):
         jobs.append({"id": f"dy{k}", "origin": f"defer-cycle-{k}", "kinds": ["generated"],
                      "files": {"main.py": gen.defer_cycle(k)}, "flags": []})
+    # the witnesses of the known crash classes: their *exit status* and markers are still judged
+    for wid, files, flags, kind in WITNESSES:
+        if kind == "batch" and wid != "F6-pow":
+            jobs.append({"id": "w_" + wid, "origin": "witness:" + wid, "kinds": ["witness"], "files": files, "flags": flags})
     jobs += make_batch_jobs(ctx, max(int(ctx.pick(300, 2000) * SCALE), 20))
     results = run_batch(ctx, runner, jobs)
     n = 0
@@ -1144,8 +1148,10 @@ def search_without_lean(ctx: Ctx, runner: Runner) -> None:
         ctx.case(("batch-nolean", job["id"]))
         text = res["out"] + res["err"]
         if res["rc"] is None or res["rc"] not in (0, 1, 2) or "INTERNAL ERROR" in text or "Traceback (most recent call last)" in text:
-            n += 1
-            if n <= 2:
+            known = ctx.match_known(dict(classify(res, ""), mode="batch"))
+            if known is None:
+                n += 1
+            if n <= 2 or known is not None:
                 handle_batch_failure_nolean(ctx, runner, job, res)
 
 
@@ -1158,7 +1164,10 @@ def handle_batch_failure_nolean(ctx: Ctx, runner: Runner, job: dict, res: dict) 
             return
         sig = classify(again, "")
         sig["mode"] = "batch"
-    files = shrink(runner, job, sig, budget=30)
+    known = ctx.match_known(sig)
+    if known is not None and any(k == known["id"] for k, _ in ctx.known_hits):
+        return
+    files = job["files"] if known is not None else shrink(runner, job, sig, budget=30)
     ctx.report(sig, f"mypy {sig['class']} ({sig.get('exc') or ''} in {sig.get('file')}:{sig.get('frame')}) on {job['origin']}",
                {"files": files, "flags": job["flags"], "cmd": "python -m mypy --show-traceback " + " ".join(job["flags"]) + " main.py",
                 "output_tail": (res["out"] + res["err"])[-1200:]})
